@@ -154,6 +154,39 @@ Theorem C18_history_deletes_finished_only : forall next lenient fuel s now fc s'
 Proof. exact history_deletes_finished_only. Qed.
 Print Assumptions C18_history_deletes_finished_only.
 
+(* ---------------- cron: the zone the schedule is evaluated in ---------------- *)
+
+(* formatSchedule / validateTZandSchedule: whenever spec.timeZone is set and
+   loads and the schedule string embeds no zone of its own, the string handed
+   to the cron parser is "TZ=<zone> <schedule>" and the schedule is evaluated
+   in that zone, for EVERY schedule kind (five fields, @every, descriptors) *)
+Theorem C18_cron_zone_is_spec : forall (k : skind) (z : Z),
+  validate_tz (TzLoads z) = true /\
+  format_schedule (TzLoads z) (mkSstr k None) = FmtPrefixed z /\
+  zone_used (TzLoads z) (mkSstr k None) = ZNamed z.
+Proof. exact cron_zone_is_spec. Qed.
+Print Assumptions C18_cron_zone_is_spec.
+
+Theorem C18_cron_zone_cases : forall tz s,
+  zone_used tz s =
+  match ss_embedded s with
+  | Some e => ZNamed e
+  | None => match tz with TzLoads z => ZNamed z | _ => ZLocal end
+  end.
+Proof. exact cron_zone_cases. Qed.
+Print Assumptions C18_cron_zone_cases.
+
+Theorem C18_cron_zone_kind_irrelevant : forall tz k1 k2 e,
+  format_schedule tz (mkSstr k1 e) = format_schedule tz (mkSstr k2 e) /\
+  zone_used tz (mkSstr k1 e) = zone_used tz (mkSstr k2 e).
+Proof. exact cron_zone_kind_irrelevant. Qed.
+Print Assumptions C18_cron_zone_kind_irrelevant.
+
+Theorem C18_cron_invalid_zone_no_start : forall next lenient fuel s now fc s' o,
+  reconcile next lenient fuel s now fc = (s', o) -> c_tz_ok (s_spec s) = false -> o_creates o = [].
+Proof. exact cron_invalid_zone_no_start. Qed.
+Print Assumptions C18_cron_invalid_zone_no_start.
+
 (* ---------------- non-vacuity ---------------- *)
 Example C18_gc_nonvacuous :
   let j := mkGjob 1 PhCompleted (Some 10) false (Some (5 * sec)) in
